@@ -5,7 +5,7 @@ GP = r'stamp_it::guard_ptr<T, MarkedPtr>::'
 TD_MEMBERS = ['control_block', 'region_entries', 'number_of_retired_nodes', 'first_retired_node', 'prev_retired_node']
 Q_METHODS = {'push': 'Q_push', 'remove': 'Q_remove', 'head_stamp': 'Q_head_stamp', 'tail_stamp': 'Q_tail_stamp',
              'add_to_global_retired_nodes': 'Q_add_global', 'steal_global_retired_nodes': 'Q_steal_global',
-             'acquire_control_block': 'Q_acquire_control_block', 'delete_self': 'N_delete_self'}
+             'acquire_control_block': 'Q_acquire_control_block', 'delete_self': 'N_delete_self', 'abandon': 'CB_abandon'}
 TYPES = [(r'\bdeletable_object_with_stamp\b', 'struct node', 'node_type'), (r'\bstd::size_t\b', 'size_t', 'size_t')]
 TD = dict(members=TD_MEMBERS, methods=Q_METHODS, subst=TYPES,
           self_calls={'ensure_has_control_block': 'sg_ensure_has_control_block', 'process_global_nodes': 'SG_process_global_nodes',
@@ -35,11 +35,11 @@ GMETH = {'enter_region': 'TD_enter_region', 'leave_region': 'TD_leave_region', '
          'reset': 'MP_reset', 'get': 'MP_get', 'set_deleter': 'X_set_deleter'}
 G = dict(methods=GMETH, self_calls={'reset': 'gp_reset'})
 
-UW = ['havoc_td.0:7', 'havoc_heap.0:7', 'build_chain.0:4', 'chain_reach.0:4', 'reach_list.0:8', 'h_local.0:7', 'h_local.1:7',
+UW = ['h_dtor.0:7', 'h_dtor.1:7', 'havoc_td.0:7', 'havoc_heap.0:7', 'build_chain.0:4', 'chain_reach.0:4', 'reach_list.0:8', 'h_local.0:7', 'h_local.1:7',
       'sg_process_local_nodes.0:7', 'sg_process_chunk_nodes.0:3', 'sg_process_global_nodes.0:2', 'sg_process_global_nodes.1:4',
       'sg_process_global_nodes.2:2', 'sg_process_global_nodes.3:2']
 UNIT = dict(
-  title='stamp_it: guard_ptr operations, thread_data enter/leave_region, retire side (add_retired_node, process_local_nodes, process_global_nodes)',
+  title='stamp_it: guard_ptr operations, thread_data enter/leave_region and destructor, retire side (add_retired_node, process_local_nodes, process_global_nodes)',
   properties=['C01', 'C02'],
   drops='templates (a marked_ptr is one word; its operator bool / == are word comparisons as in marked_ptr.hpp; a concurrent_ptr is an atomic word); '
         'thread_local local_thread_data() is one global object; deletable_object_with_stamp is struct node {next, next_chunk, stamp} with a ghost deletion counter '
@@ -49,7 +49,7 @@ UNIT = dict(
   assumptions=[
     'TRUSTED thread_order_queue (stamp_it.hpp:53-524): push(block) gives the block a stamp greater than all earlier ones; remove(block) takes it out and returns whether it was the tail-most; '
     'tail_stamp() <= stamp of every block still in the list and is monotone; head_stamp() is the current head stamp; steal_global_retired_nodes()/add_to_global_retired_nodes() hand chunk lists over without loss; '
-    'acquire_control_block() returns a non-null block.  These are contract stubs in harness.c, not verified.',
+    'acquire_control_block() returns a non-null block; thread_control_block::abandon() (thread_block_list entry) releases the block.  These are contract stubs in harness.c, not verified.',
     'composition (a node retired with stamp s is unreachable for every thread whose block has stamp > s) is the Stamp-it paper\'s argument, not checked here',
   ],
   consts=[
@@ -68,6 +68,8 @@ UNIT = dict(
     dict(TD, id='add_retired_node', file=F, sig=r'void add_retired_node\(deletable_object_with_stamp\* p\)',
          c_sig='static void sg_add_retired_node(struct thread_data* self, struct node* p)',
          must_fire={'method:head_stamp': 1, 'self_call:process_local_nodes': 1}),
+    dict(TD, id='dtor', file=F, sig=r'~thread_data\(\)', c_sig='static void sg_thread_data_dtor(struct thread_data* self)',
+         must_fire={'method:abandon': 1, 'self_call:process_local_nodes': 1, 'method:add_to_global_retired_nodes': 1, 'member:control_block': 3}),
     dict(TD, id='process_local_nodes', file=F, sig=r'void process_local_nodes\(\)',
          c_sig='static void sg_process_local_nodes(struct thread_data* self)',
          must_fire={'method:tail_stamp': 1, 'method:delete_self': 1}),
@@ -115,6 +117,8 @@ UNIT = dict(
     dict(id='enter', entry='h_enter', defs={'XV_STUB_PROCESS': 1}, unwindset=UW, cls='unbounded'),
     dict(id='leave', entry='h_leave', defs={'XV_STUB_PROCESS': 1}, unwindset=UW, cls='unbounded', note='process_local/global_nodes replaced by their contracts'),
     dict(id='add_retired', entry='h_add_retired', defs={'XV_STUB_PROCESS': 1}, unwindset=UW, cls='unbounded', note='local list abstract: first node, last node, length'),
+    dict(id='dtor', entry='h_dtor', defs={'LL': 3}, unwindset=UW, cls='shape-complete',
+         note='~thread_data with the real process_local_nodes: local list of 0..3 nodes, arbitrary stamps, arbitrary tail stamp (any prefix is freed); with and without control block'),
     dict(id='local', entry='h_local', defs={'LL': 3}, unwindset=UW, cls='shape-complete', note='local list of 0..3 nodes, arbitrary stamps'),
     dict(id='local5', entry='h_local', defs={'LL': 5}, unwindset=UW, tiers=['thorough'], cls='shape-complete', note='local list of 0..5 nodes'),
     dict(id='global', entry='h_global', unwindset=UW, cls='shape-complete',
@@ -132,9 +136,10 @@ UNIT = dict(
     'stamp.retire.stamped_with_head': dict(deciding=True, text='add_retired_node stamps the node with the value of head_stamp() read during the call (exactly one read)'),
     'stamp.free.below_tail': dict(deciding=True, text='delete_self() only on nodes whose stamp is <= a tail_stamp() value read earlier in the same call (the code\'s comparison is stamp <= tail_stamp)'),
     'stamp.global.restart_progress': dict(deciding=True, text='process_global_nodes jumps back to restart only after a pass that deleted at least one node (so the number of passes is bounded by the number of nodes)'),
+    'stamp.dtor.hands_over_all': dict(deciding=True, text='C02 at thread exit: ~thread_data releases the control block exactly once and every node of the local retire list is either deleted exactly once (stamp <= tail stamp read) or handed to add_to_global_retired_nodes exactly once as the whole remaining chain starting at first_retired_node - also when a single node remains; a thread without control block does nothing'),
     'stamp.conserve': dict(deciding=True, text='C02: add_retired_node / process_local_nodes / process_global_nodes (including the goto-restart chunk loop) / leave_region conserve the multiset of retired nodes: every node is deleted exactly once or kept exactly once (local list or the chunk list handed back); nodes outside are untouched; list bookkeeping (first/prev/count) stays exact'),
   },
   loop_obligation={'RESTART': 'stamp.conserve'},
-  replays={'stamp.conserve': dict(src='replay_retire.cpp'), 'stamp.free.below_tail': dict(src='replay_retire.cpp')},
-  canaries=['add_retired.append', 'add_retired.first', 'add_retired.threshold', 'enter.first_block', 'enter.nested', 'enter.outermost', 'global.all_deleted', 'global.deleted', 'global.kept', 'global.nothing', 'global.restart_taken', 'global.three_chunks_back', 'gp_acquire.entered', 'gp_acquire.first_load_failed', 'gp_acquire.if_equal', 'gp_acquire.kept_region', 'gp_acquire.plain', 'gp_acquire_int.second_load_failed', 'gp_copy_assign.done', 'gp_copy_assign.self', 'gp_copy_ctor.done', 'gp_ctor.nonnull', 'gp_ctor.null', 'gp_move_assign.done', 'gp_move_assign.self', 'gp_move_ctor.done', 'gp_reclaim.done', 'gp_reset.nonnull', 'gp_reset.null', 'leave.hand_over', 'leave.keep_local', 'leave.nested', 'leave.was_last', 'local.all_deleted', 'local.deleted', 'local.empty', 'local.kept', 'local.prefix'],
+  replays={'stamp.dtor.hands_over_all': dict(src='replay_retire.cpp'), 'stamp.conserve': dict(src='replay_retire.cpp'), 'stamp.free.below_tail': dict(src='replay_retire.cpp')},
+  canaries=['add_retired.append', 'add_retired.first', 'add_retired.threshold', 'dtor.all_deleted', 'dtor.deleted', 'dtor.empty_list', 'dtor.handed_over', 'dtor.no_control_block', 'dtor.single_node_left', 'dtor.whole_list_handed_over', 'enter.first_block', 'enter.nested', 'enter.outermost', 'global.all_deleted', 'global.deleted', 'global.kept', 'global.nothing', 'global.restart_taken', 'global.three_chunks_back', 'gp_acquire.entered', 'gp_acquire.first_load_failed', 'gp_acquire.if_equal', 'gp_acquire.kept_region', 'gp_acquire.plain', 'gp_acquire_int.second_load_failed', 'gp_copy_assign.done', 'gp_copy_assign.self', 'gp_copy_ctor.done', 'gp_ctor.nonnull', 'gp_ctor.null', 'gp_move_assign.done', 'gp_move_assign.self', 'gp_move_ctor.done', 'gp_reclaim.done', 'gp_reset.nonnull', 'gp_reset.null', 'leave.hand_over', 'leave.keep_local', 'leave.nested', 'leave.was_last', 'local.all_deleted', 'local.deleted', 'local.empty', 'local.kept', 'local.prefix'],
 )
